@@ -137,6 +137,7 @@ Fixpoint reps_loop (pfx : bytes) (i : Z) (reps : list Z) (s : store) : outcome s
   match reps with
   | [] => Halt s
   | r :: reps' =>
+      _ <-! oassert (int_ok r);                (* [r] is a VM integer *)
       _ <-! oassert (negb (255 <? r));         (* replica > maxNumOfREPs *)
       b <-! byte_of i;                         (* append(replicasPrefix, uint8(i)) *)
       s' <-! sput (pfx ++ [b]) (int_to_bytes r) s;
@@ -329,7 +330,7 @@ Section Placement.
         v <-! mget m k_validuntil; vub <-! conv_int v;
         _ <-! match vub with
               | Some z => oassert (negb (z <=? cur))
-              | None => Halt tt     (* LE with a Null operand is false: no panic *)
+              | None => Fault       (* [if vub <= x] is compiled to JMPGT: faults on Null *)
               end;
         ok <-! verify s cid raw sigs;
         _ <-! oassert ok;
@@ -438,7 +439,7 @@ Definition add_ok (a : astate) (alpha : bool) (cid : bytes) (vec : Z) (keys : li
 Definition reps_ok (reps : option (list Z)) : bool :=
   match reps with
   | None => true
-  | Some l => (length l <=? 256)%nat && forallb (fun r => r <=? 255) l
+  | Some l => (length l <=? 256)%nat && forallb (fun r => int_ok r && (r <=? 255)) l
   end.
 
 Definition commit_ok (alpha : bool) (cid : bytes) (reps : option (list Z)) : bool :=
